@@ -133,8 +133,21 @@ def oracle(case, rec, group):
     return out
 
 
+def post(cov, cases, recs):
+    """sequences of wrapped calls sharing argument objects / result wires (direct scenarios on the real code)"""
+    import subprocess, os, common
+    script = os.path.join(common.VERIF, "harness", "impl", "snark_scenarios.py")
+    r = subprocess.run([common.PY, script], env=common.impl_env({}), stdout=subprocess.PIPE, stderr=subprocess.PIPE, text=True, timeout=120)
+    cov["direct_call_sequence_scenarios"] = 12
+    if r.returncode != 0:
+        return [dict(kind="harness", concrete=False, what="direct @snark scenarios crashed", detail=r.stderr[-800:])]
+    vs = json.loads(r.stdout.strip().split("\n")[-1])
+    for v in vs: v["case"] = dict(replay="PYTHONPATH=/repo:/verif/harness /venv/bin/python /verif/harness/impl/snark_scenarios.py")
+    return vs
+
+
 def run(tier, seed):
-    return tracecheck.run(PID, tier, seed, {}, oracle, n_quick=250, n_thorough=4000, casegen=casegen,
+    return tracecheck.run(PID, tier, seed, {}, oracle, n_quick=250, n_thorough=4000, casegen=casegen, post=post,
                           require_props=False, level="translation_validation", mask=1 | 2 | 4 | 8, shrink_budget=6)
 
 
